@@ -672,7 +672,70 @@ def unit_determinism(a):
     return stats
 
 
+def check_fs_history(case, stats):
+    """the only outside state a parse looks at is the file system (finding F1 - a source string naming a file is read from it): a parse
+    must see the file system as it is NOW, not as it was when the same string was parsed earlier in the process"""
+    name, content, dflt = case["name"], case["content"], case.get("default", "en")
+    if os.path.exists(name):
+        return
+    stats.case((name, content), True, sample={"name": name, "content": content[:80]})
+    parser = gh.Parser() if case.get("one_parser") else None
+    run = lambda src: norm_result(gh.parse(src, dflt, parser=parser))
+    import io
+
+    class TextScanner:
+        """hands the parser the lines of a text without ever asking the file system (same tokens as TokenScanner.read makes)"""
+        def __init__(self, text):
+            self.io, self.n = io.StringIO(text), 0
+
+        def read(self):
+            self.n += 1
+            line = self.io.readline()
+            return gh.Token(gh.GherkinLine(line, self.n) if line else line, {"line": self.n})
+    as_stream = lambda t: norm_result(gh.parse(TextScanner(t), dflt))
+    # does a source string naming an existing file get read from it on this tree (finding F1)?  probed with a string never parsed before
+    probe = name + ".probe"
+    with open(probe, "w", encoding="utf8") as f:
+        f.write("Feature: probe\n")
+    try:
+        r = norm_result(gh.parse(probe, dflt))
+    finally:
+        os.remove(probe)
+    reads_files = r == as_stream("Feature: probe\n")
+    if not reads_files and r != as_stream(probe):
+        stats.label("probe_inconclusive")
+        return
+    want_text = as_stream(name)
+    want_file = as_stream(content) if reads_files else want_text
+    as_text = run(name)
+    try:
+        with open(name, "w", encoding="utf8", newline="") as f:
+            f.write(content)
+        with_file = run(name)
+        with_file2 = run(name)
+    finally:
+        os.remove(name)
+    gone = run(name)
+    if as_text != want_text:
+        raise Violation(case, "source string %r (no such file) parses differently from the same text handed over as a stream: %s" % (name, diff_text(as_text, want_text, "string", "stream")))
+    if with_file != want_file or with_file2 != want_file:
+        raise Violation(case, "source string %r parsed once before a file of that name existed; parsed again while the file exists the result is not what a never-parsed name gives (%s): %s" % (
+            name, "the file's content" if reads_files else "the text itself", diff_text(with_file, want_file, "got", "expected")))
+    if gone != want_text:
+        raise Violation(case, "source string %r parsed while a file of that name existed and again after it was removed: %s" % (name, diff_text(gone, want_text, "after removal", "as text")))
+
+
+def unit_fs(a):
+    stats = Stats()
+    names = ["x.feature", "dir-less name.feature", "Feature: f", "ünï.feature", "a"]
+    contents = [POOL[k] for k in sorted(POOL)[:6]] + ["Feature: from file\n Scenario: s\n  Given x\n", ""]
+    sweep(stats, [{"sub": "fs-history", "name": "%s%d" % (n, i), "content": c, "one_parser": op} for n in names for i, c in enumerate(contents) for op in (False, True)], check_fs_history)
+    return stats
+
+
 def replay(case, stats):
+    if case["sub"] == "fs-history":
+        return check_fs_history(case, stats)
     return {"history": check_history, "stream-history": check_stream_history, "reset": check_reset, "schedule": check_schedule, "determinism": check_determinism, "twice": check_twice, "threads": check_threads, "first-use-race": check_first_use_race}[case["sub"]](case, stats)
 
 
@@ -683,6 +746,7 @@ def run(ctx):
     ctx.units("pool-pairs-triples", unit_pool, [{"lengths": [2, 3], "sample": 3 if q else 0, "seed": ctx.seed, "shard": i, "nshards": ns} for i in range(ns)], procs=ns)
     ctx.units("stream-pool-pairs-triples", unit_stream_pool, [{"lengths": [2, 3], "sample": 0, "seed": ctx.seed, "shard": i, "nshards": ns} for i in range(ns)], procs=ns)
     ctx.units("shared-keyword-dialect-pairs", unit_shared_keywords, [{"shard": i, "nshards": ns} for i in range(ns)], procs=ns)
+    ctx.units("file-appears-and-disappears", unit_fs, [{}])
     ctx.units("sampled-histories", unit_sampled, [{"n": 180 if q else 2000, "seed": ctx.seed, "shard": i} for i in range(8 if q else 16)], procs=16)
     ctx.units("matcher-reset", unit_reset, [{"n": 1500 if q else 8000, "seed": ctx.seed, "shard": i} for i in range(8 if q else 16)], procs=16)
     ctx.units("free-running-threads", unit_threads, [{"reps": 40 if q else 400, "race_reps": 1 if q else 6}])
